@@ -618,7 +618,7 @@ def u_ac(ctx):
     acts = [("discrete", 2), ("multidiscrete", (2, 3)), ("multibinary", 2), ("box", 1), ("discrete", 5),
             ("multidiscrete", (3, 2, 2)), ("multibinary", 3), ("box", 3), ("multibinary", 1), ("box", 2),
             ("discrete", 3), ("multidiscrete", (4,))]
-    n = ctx.n(16, 144)
+    n = ctx.n(30, 180)
     with _Scratch() as T:
         for i in range(n):
             spec = dict(nS=int(ctx.rng.integers(2, 8)), act=acts[i % len(acts)],
@@ -635,7 +635,7 @@ def u_ac_spaces(ctx):
     act_spaces = [("space", ("box", (), -1.0, 1.0)), ("space", ("multibinary", (2, 2))),
                   ("space", ("box", (2, 2), -1.0, 1.0)), ("space", ("box", (2,), -np.inf, np.inf)),
                   ("discrete", 3), ("box", 2), ("multidiscrete", (2, 2))]
-    n = ctx.n(14, 126)
+    n = ctx.n(28, 168)
     with _Scratch() as T:
         for i in range(n):
             act = act_spaces[i % len(act_spaces)]
@@ -649,7 +649,7 @@ def u_ac_spaces(ctx):
 def u_q(ctx):
     from lerax.policy import MLPQPolicy as C
 
-    n = ctx.n(16, 140)
+    n = ctx.n(26, 180)
     with _Scratch() as T:
         for i in range(n):
             obs = _OBS_FINITE[i % 3] if i % 2 == 0 else _OBS_SPACES[(i // 2) % len(_OBS_SPACES)]
@@ -664,7 +664,7 @@ def u_sac(ctx):
 
     acts = [("box", 1), ("box", 2), ("space", ("box", (), -2.0, 0.5)), ("box", 3),
             ("space", ("box", (2,), (-1.0, 0.0), (1.0, 5.0)))]
-    n = ctx.n(15, 135)
+    n = ctx.n(25, 180)
     with _Scratch() as T:
         for i in range(n):
             obs = _OBS_FINITE[i % 3] if i % 3 != 2 else _OBS_SPACES[(i // 3) % len(_OBS_SPACES)]
@@ -817,13 +817,20 @@ def _mismatch_pairs(ctx, family):
     return pairs
 
 
+def _hostile(label):
+    return label.startswith("uniform") and label.endswith("shallower-skeleton")
+
+
 def _round_robin(pairs, cap, rng):
+    """All pairs of the hostile class (equal sizes, file deeper than skeleton: leaf shapes coincide as
+    a prefix) are always taken; the others round-robin over their classes up to the cap."""
+    out = [p for p in pairs if _hostile(p[0])]
     groups = OrderedDict()
     for p in pairs:
-        groups.setdefault(p[0], []).append(p)
+        if not _hostile(p[0]):
+            groups.setdefault(p[0], []).append(p)
     for g in groups.values():
         rng.shuffle(g)
-    out = []
     while len(out) < cap and any(groups.values()):
         for g in groups.values():
             if g and len(out) < cap:
@@ -894,7 +901,7 @@ def _mismatch_unit(ctx, family):
                    "skeleton_leaf_shapes": [s[1] if s[0] == "a" else s[1] for s in sB],
                    "got": f"an object of type {type(got).__name__}", "want": "an exception"}
             if len(sB) < len(sA) and sA[:len(sB)] == sB:
-                ctx.violation(f"deserialize-ignores-trailing-leaves-{family}", det)
+                ctx.violation("deserialize-ignores-trailing-leaves", det)
             else:
                 ctx.violation(f"mismatched-load-returns-object-{family}", det)
         ctx.notes["files_left_before_cleanup"] = len(T.files())
